@@ -84,6 +84,56 @@ theorem refused_leaves_stored_config (st : Store) (o : ConfigOptions) :
       simp only
       split <;> simp_all
 
+/-- The same for the IN-MEMORY copy of the open handle (`repo.config()`, what every append-only guard reads): a refused
+`apply_config` — refused by the append-only guard or by any validation inside `ConfigOptions::apply` — leaves the
+handle's in-memory config, the stored config and the write count exactly as they were, for every in-memory copy
+(coherent with the store or not).  `ConfigOptions::apply` itself DOES assign fields before it fails
+(`apply_assigns_before_failing`), so this holds only because `apply_config` works on a clone. -/
+theorem refused_leaves_handle_config (mem : ConfigFile) (st : Store) (o : ConfigOptions) (e : Fail)
+    (h : (applyConfigH mem st o).2.2 = .error e) :
+    (applyConfigH mem st o).1 = mem ∧ (applyConfigH mem st o).2.1 = st :=
+  applyConfigH_refused h
+
+/-- The in-memory copy follows the store: starting coherent (`open` reads the stored config), after any `apply_config`
+— accepted, unchanged or refused — the handle's config is again the stored one, and result and store are those of
+`applyConfig` (so every theorem above about `applyConfig` is a theorem about the handle). -/
+theorem handle_config_follows_store (st : Store) (o : ConfigOptions) :
+    (applyConfigH st.config st o).1 = (applyConfigH st.config st o).2.1.config ∧
+    (applyConfigH st.config st o).2 = applyConfig st o := by
+  rw [applyConfigH_eq_applyConfig]
+  exact ⟨rfl, rfl⟩
+
+/-- … along any sequence of changes on one handle. -/
+theorem handle_config_follows_store_seq (os : List ConfigOptions) (st : Store) :
+    let fin := os.foldl (fun (p : ConfigFile × Store) o => ((applyConfigH p.1 p.2 o).1, (applyConfigH p.1 p.2 o).2.1))
+      (st.config, st)
+    fin.1 = fin.2.config ∧ fin.2 = os.foldl (fun st o => (applyConfig st o).1) st := by
+  induction os generalizing st with
+  | nil => exact ⟨rfl, rfl⟩
+  | cons o os ih =>
+    simp only [List.foldl_cons]
+    have h := handle_config_follows_store st o
+    have e1 : (applyConfigH st.config st o).1 = (applyConfig st o).1.config := by rw [h.1, h.2]
+    have e2 : (applyConfigH st.config st o).2.1 = (applyConfig st o).1 := by rw [h.2]
+    rw [e1, e2]
+    exact ih (applyConfig st o).1
+
+/-- `ConfigOptions::apply` on its `&mut` target agrees with `apply` (same value on success, same error) … -/
+theorem apply_mut_agrees (o : ConfigOptions) (c : ConfigFile) :
+    (∀ c', applyMut o c = (c', none) ↔ apply o c = .ok c') ∧ (∀ e, (applyMut o c).2 = some e ↔ apply o c = .error e) :=
+  ⟨fun _ => applyMut_ok, fun _ => applyMut_err⟩
+
+/-- … and really leaves the target partly assigned when it fails: `set_append_only(false)` together with an option
+that is rejected later (here `min_packsize_tolerate_percent = 200`) returns the error with `append_only` already
+cleared in the target; applied in place to the live config this would switch off every append-only guard of the
+handle while the stored config still says append-only (seeded change C15-1; corpus `c15 hnd plain config.ao0.xminpct,forget`). -/
+theorem apply_assigns_before_failing :
+    let c := { ConfigFile.new 2 7 9 with appendOnly := some true }
+    let o : ConfigOptions := { setAppendOnly := some false, setMinPackPct := some 200 }
+    applyMut o c = ({ c with appendOnly := some false }, some (.err .invalidInput)) ∧
+    (applyConfigH c ⟨c, 1⟩ o) = (c, ⟨c, 1⟩, .error (.err .invalidInput)) := by
+  decide
+
 /-- A refused `init` writes nothing at all (the configuration is validated before the first write). -/
 theorem refused_init_writes_nothing (id poly : Nat) (o : ConfigOptions) (e : Fail)
     (h : apply o (ConfigFile.new 2 id poly) = .error e) : initConfig id poly o = .error e := by
